@@ -31,6 +31,11 @@ def regression(pid):
 LEX_ALPHABET = [b"a", b"e", b"x", b"B", b"r", b"_", b"0", b"1", b"9", b".", b"'", b'"', b"`", b"\\",
                 b"-", b"/", b"*", b"#", b"\n", b" ", b";", b"<", b">", b"@"]
 
+NEAR_MISS = [b"f(a => 1, 2)", b"f(1, a => 2, 3)", b"SELECT * FROM tvf(a => 1, TABLE t)", b"@`p`", b"SELECT @`a b`", b"x = @`my param` AND y = 1",
+             b"SELECT 1 FROM t WHERE a = @`p` + 1", b"CAST(x AS `INT64`)", b"ARRAY_FILTER(arr => [1], x -> x > 1)", b"SELECT SNIPPET(col, 'q', max_snippets => 2, 10) FROM t",
+             b"~-1", b"- -1", b"+ -2.5", b"1 + ~ -0x10", b"NOT NOT a", b"- - - a", b"a . b", b"a.`b`.c[0]", b"(SELECT 1 AS x.y)", b"[(SELECT t.* FROM t AS a.b)]",
+             b"CASE WHEN a THEN (SELECT 1 AS x.y) END", b"1 <> 2", b"a <> b AND c != d", b"SELECT * FROM t WHERE a <> 1"]
+
 TOKENS = [b"SELECT", b"FROM", b"WHERE", b"AS", b"a", b"b", b"t", b"1", b"2.5", b"'s'", b'"d"', b"`q`", b"(", b")",
           b",", b";", b"+", b"-", b"*", b"/", b"=", b"<", b">", b"<=", b">>", b"<<", b"||", b"|", b"&", b"^", b"~",
           b".", b"[", b"]", b"{", b"}", b"@p", b"@", b"NOT", b"AND", b"OR", b"IN", b"IS", b"NULL", b"BETWEEN",
@@ -109,10 +114,14 @@ def parser_cases(rnd, n_mut, n_soup, n_lists, valid_only=False):
     mutations (error recovery, Bad nodes), token soups, ';'-joined lists and type expressions"""
     out = []
     corp = corpus()
+    if valid_only:
+        corp = [(k, nm, s) for (k, nm, s) in corp if not nm.startswith("!")]      # upstream marks its invalid inputs with '!'
     for k, nm, s in corp:
         for e in KIND_ENTRIES[k]:
             out.append((e, s))
     for t in TYPES:
+        if valid_only and (b"(" in t or t == b"INTERVAL"):
+            continue                                                             # sized / DDL-only types are not ParseType sentences
         out.append(("ParseType", t))
     if not valid_only:
         for _ in range(n_mut):
@@ -205,8 +214,58 @@ class G:
         if k == 11:
             return "EXTRACT(%s FROM %s)" % (self.pick(["YEAR", "DAY", "DATE"]), self.expr(d + 1))
         if k == 12:
-            return "COUNT(*)"
+            return self.special_atom(d)
         return "%s.%s" % (self.postfix_base(d + 1), self.ident())
+
+    def special_atom(self, d):
+        """call-like and constructor forms"""
+        e = lambda: self.expr(d + 2)
+        k = self.r.randrange(16)
+        if k == 0:
+            return "COUNT(*)"
+        if k == 1:
+            return "f(%s%s => %s%s)" % (self.pick(["", e() + ", "]), self.pick(["a", "enhance_query"]), e(), self.pick(["", ", b => 2"]))
+        if k == 2:
+            return "ARRAY_FILTER(%s, %s -> %s)" % (self.pick(["[1, 2]", "arr"]), self.pick(["e", "(e)", "(e, i)"]), e())
+        if k == 3:
+            return "%s(%s, INTERVAL %s %s)" % (self.pick(["TIMESTAMP_ADD", "DATE_SUB"]), e(), self.pick(["1", "@n", "120"]), self.pick(["DAY", "HOUR", "MONTH"]))
+        if k == 4:
+            return "GET_NEXT_SEQUENCE_VALUE(SEQUENCE %s)" % self.path()
+        if k == 5:
+            return "ARRAY_AGG(%s%s%s%s)" % (self.pick(["", "DISTINCT "]), e(), self.pick(["", " IGNORE NULLS", " RESPECT NULLS"]), self.pick(["", " HAVING MAX " + e(), " HAVING MIN " + e()]))
+        if k == 6:
+            return "REPLACE_FIELDS(%s, %s AS %s%s)" % (e(), e(), self.pick(["title", "details.chapters"]), self.pick(["", ", 11 AS x.y"]))
+        if k == 7:
+            return "EXTRACT(%s FROM %s%s)" % (self.pick(["HOUR", "DAY", "DATE", "ISOWEEK"]), e(), self.pick(["", " AT TIME ZONE 'UTC'", " AT TIME ZONE " + e()]))
+        if k == 8:
+            return "WITH(%s%s)" % ("".join("%s AS %s, " % (self.pick(["a", "b", "v"]), e()) for _ in range(self.r.randrange(0, 3))), e())
+        if k == 9:
+            return "NEW %s(%s)" % (self.pick(["Book", "a.b.Chart"]), ", ".join(e() + self.pick(["", " AS title", " AS (ext.field)"])[:0] + self.pick(["", " AS title"]) for _ in range(self.r.randrange(0, 3))))
+        if k == 10:
+            return "NEW %s %s" % (self.pick(["Universe", "x.Y"]), self.braced(d + 1))
+        if k == 11:
+            return "%s(%s).%s" % (self.pick(["f", "g.h"]), e(), self.ident())
+        if k == 12:
+            return "IF(%s, %s, %s)" % (e(), e(), e())
+        if k == 13:
+            return "CAST(%s AS %s)" % (e(), self.pick(["INT64", "FLOAT64", "STRUCT<x INT64, y ARRAY<STRING>>"]))
+        if k == 14:
+            return "%s(DISTINCT %s)" % (self.pick(["COUNT", "SUM"]), e())
+        return "(%s, %s)" % (e(), e())
+
+    def braced(self, d):
+        if d > 4 or self.r.random() < 0.2:
+            return "{}"
+        fs = []
+        for _ in range(self.r.randrange(1, 4)):
+            k = self.r.randrange(3)
+            if k == 0:
+                fs.append("%s: %s" % (self.pick(["name", "a", "(ext.f)"])[:4].strip("("), self.expr(d + 2)))
+            elif k == 1:
+                fs.append("%s %s" % (self.pick(["inr", "b"]), self.braced(d + 1)))
+            else:
+                fs.append("%s: %s" % (self.pick(["c", "list"]), self.braced(d + 1)))
+        return "{%s}" % self.pick([", ", " ", ", "]).join(fs)
 
     def postfix_base(self, d):
         """what may stand in front of .field / [index]: a path, a call, a parenthesised expression, another postfix"""
@@ -262,10 +321,14 @@ class G:
     def table(self, d):
         k = self.r.randrange(7 if d < 2 else 3)
         if k < 3:
-            return self.path() + self.pick(["", " AS " + self.ident(), " " + self.pick(["u", "v"]), "@{FORCE_INDEX=i}", " TABLESAMPLE BERNOULLI (1 PERCENT)"])
+            return self.path() + self.pick(["", " AS " + self.ident(), " " + self.pick(["u", "v"]), "@{FORCE_INDEX=i}", " TABLESAMPLE BERNOULLI (1 PERCENT)",
+                                       " TABLESAMPLE RESERVOIR (CAST(1 AS INT64) ROWS)", " TABLESAMPLE BERNOULLI (CAST(0.1 AS FLOAT64) PERCENT)", " TABLESAMPLE RESERVOIR (@n ROWS)"])
         if k == 3:
             return "(%s) %s" % (self.select(d + 1), self.pick(["", "AS s"]))
         if k == 4:
+            if self.r.random() < 0.3:
+                return self.pick(["ML.PREDICT(MODEL m, TABLE t)", "ML.PREDICT(MODEL m, (SELECT 1 AS x))", "tvf(1, TABLE a.b)", "tvf(x => 1)", "tvf(TABLE t, n => 2)",
+                                  "ML.PREDICT(MODEL m, TABLE t, STRUCT(1 AS k)) TABLESAMPLE BERNOULLI (1 PERCENT)", "tvf()@{k=v}"])
             return "UNNEST(%s)%s" % (self.expr(3), self.pick(["", " AS e", " WITH OFFSET", " AS e WITH OFFSET AS o"]))
         if k == 5:
             op = self.pick(["JOIN", "INNER JOIN", "LEFT JOIN", "LEFT OUTER JOIN", "CROSS JOIN", "FULL JOIN", ",", "RIGHT JOIN", "HASH JOIN"])
@@ -274,7 +337,7 @@ class G:
         return "(%s JOIN %s ON TRUE)" % (self.table(3), self.table(3))
 
     def select(self, d):
-        s = "SELECT %s%s%s" % (self.pick(["", "", "DISTINCT ", "ALL ", "AS STRUCT ", "AS VALUE "]),
+        s = "SELECT %s%s%s" % (self.pick(["", "", "DISTINCT ", "ALL ", "AS STRUCT ", "AS VALUE ", "AS TypeName ", "DISTINCT AS STRUCT "]),
                                ", ".join(self.select_item(d) for _ in range(self.r.randrange(1, 4))), self.pick(["", "", ","]) if False else "")
         if self.r.random() < 0.8:
             s += " FROM " + self.table(d)
@@ -290,6 +353,11 @@ class G:
         k = self.r.randrange(8 if d < 2 else 4)
         if k == 6 and d > 0:
             k = 0
+        if d == 0 and self.r.random() < 0.06:
+            q = "FROM %s%s" % (self.table(1), self.pick(["", " |> WHERE a", " |> SELECT x, y", " |> WHERE %s |> SELECT *" % self.expr(3)]))
+            if self.r.random() < 0.4:
+                q = "@{%s=%s} " % (self.pick(["k", "USE_ADDITIONAL_PARALLELISM"]), self.pick(["1", "TRUE"])) + q
+            return q
         if k < 4:
             q = self.select(d)
         elif k == 4:
@@ -301,9 +369,9 @@ class G:
         else:
             q = "%s UNION ALL %s UNION ALL %s" % (self.select(d + 1), self.select(d + 1), self.select(d + 1))
         if self.r.random() < 0.3:
-            q += " ORDER BY " + ", ".join(self.expr(3) + self.pick(["", " ASC", " DESC"]) for _ in range(self.r.randrange(1, 3)))
+            q += " ORDER BY " + ", ".join(self.expr(3) + self.pick(["", "", ' COLLATE "en_US"', " COLLATE @c"]) + self.pick(["", " ASC", " DESC"]) for _ in range(self.r.randrange(1, 3)))
         if self.r.random() < 0.3:
-            q += " LIMIT " + self.pick(["1", "@n", "10"]) + self.pick(["", " OFFSET 2"])
+            q += " LIMIT " + self.pick(["1", "@n", "10", "CAST(1 AS INT64)", "CAST(@p AS INT64)"]) + self.pick(["", " OFFSET 2", " OFFSET @o", " OFFSET CAST(1 AS INT64)"])
         if d == 0 and self.r.random() < 0.15:
             q += " FOR UPDATE"
         if d == 0 and self.r.random() < 0.1:
@@ -312,16 +380,59 @@ class G:
             q = "@{%s=%s} " % (self.pick(["k", "FORCE_INDEX", "x.y"]), self.pick(["1", "v", "'s'", "TRUE"])) + q
         return q
 
+    DDL_MORE = [
+        "DROP SCHEMA sch1", 
+        "CREATE LOCALITY GROUP g", "ALTER LOCALITY GROUP `default` SET OPTIONS (storage = 'ssd', x = '10d')",
+        "DROP LOCALITY GROUP g", "CREATE CHANGE STREAM cs FOR ALL", "ALTER PROTO BUNDLE INSERT (a.B)", "ALTER TABLE t SET OPTIONS (x = 1)", "CREATE SEARCH INDEX si ON t (a, b) STORING (c) PARTITION BY d ORDER BY e DESC OPTIONS (sort_order_sharding = true)", "DROP SCHEMA sch1", "CREATE LOCALITY GROUP g",
+        "CREATE LOCALITY GROUP g OPTIONS (storage = 'ssd')", "CREATE TABLE t (a INT64, SYNONYM (s)) PRIMARY KEY (a)", "CREATE SCHEMA s",
+        "CREATE PLACEMENT `p` OPTIONS (instance_partition = \"x\")",
+        "CREATE PROTO BUNDLE (a.b.C, `x.y.Z`)", "ALTER PROTO BUNDLE", "ALTER PROTO BUNDLE INSERT (a.B) UPDATE (c.D) DELETE (e.F)",
+        "ALTER PROTO BUNDLE UPDATE (`a.b`)", "ALTER PROTO BUNDLE DELETE (x)", "DROP PROTO BUNDLE",
+        "CREATE TABLE t (a INT64, SYNONYM (s)) PRIMARY KEY (a)", "CREATE TABLE t (a INT64 NOT NULL AUTO_INCREMENT PRIMARY KEY)",
+        "CREATE TABLE t (a INT64 GENERATED BY DEFAULT AS IDENTITY (BIT_REVERSED_POSITIVE START COUNTER WITH 1000 SKIP RANGE 1, 2) PRIMARY KEY, b INT64 GENERATED BY DEFAULT AS IDENTITY)",
+        "CREATE TABLE t (a INT64 GENERATED BY DEFAULT AS IDENTITY (BIT_REVERSED_POSITIVE)) PRIMARY KEY (a)",
+        "CREATE TABLE t (a INT64 GENERATED BY DEFAULT AS IDENTITY (SKIP RANGE 1000, 2000 START COUNTER WITH 5)) PRIMARY KEY (a)",
+        "CREATE TABLE t (a INT64, CONSTRAINT c FOREIGN KEY (a) REFERENCES u (b) ON DELETE CASCADE NOT ENFORCED, CHECK (a > 0), FOREIGN KEY (a) REFERENCES u (b) ENFORCED) PRIMARY KEY (a)",
+        "CREATE SEQUENCE s OPTIONS (sequence_kind = 'bit_reversed_positive')",
+        "ALTER SEQUENCE s SKIP RANGE 1, 1234567", "ALTER SEQUENCE s NO SKIP RANGE", "ALTER SEQUENCE s RESTART COUNTER WITH 1000", "ALTER SEQUENCE s SET OPTIONS (x = 1)",
+        "CREATE CHANGE STREAM cs", "CREATE CHANGE STREAM cs FOR t",
+        "ALTER CHANGE STREAM cs SET FOR t(a), u", "ALTER CHANGE STREAM cs DROP FOR ALL", "ALTER CHANGE STREAM cs SET OPTIONS (retention_period = '1d', v = 'X')", "DROP CHANGE STREAM cs",
+        "ALTER TABLE t DROP SYNONYM s", "ALTER TABLE t ADD ROW DELETION POLICY (OLDER_THAN(c, INTERVAL 30 DAY))", "ALTER TABLE t DROP CONSTRAINT c",
+        "ALTER TABLE t DROP ROW DELETION POLICY", "ALTER TABLE t REPLACE ROW DELETION POLICY (OLDER_THAN(c, INTERVAL 1 DAY))", "ALTER TABLE t SET INTERLEAVE IN p",
+        "ALTER TABLE t SET INTERLEAVE IN PARENT p ON DELETE NO ACTION", "ALTER TABLE t SET OPTIONS (locality_group = 'x')",
+        "ALTER TABLE t ALTER COLUMN c SET OPTIONS (allow_commit_timestamp = true)", "ALTER TABLE t ALTER COLUMN c DROP DEFAULT",
+        "ALTER TABLE t ALTER COLUMN c ALTER IDENTITY SET NO SKIP RANGE", "ALTER TABLE t ALTER COLUMN c ALTER IDENTITY SET SKIP RANGE 1, 2", "ALTER TABLE t ALTER COLUMN c ALTER IDENTITY RESTART COUNTER WITH 9",
+        "ALTER TABLE t ALTER COLUMN c STRING(MAX) NOT NULL DEFAULT ('x')", "ALTER TABLE t ADD COLUMN c INT64 NOT NULL GENERATED BY DEFAULT AS IDENTITY (BIT_REVERSED_POSITIVE)",
+        "ALTER TABLE t ADD COLUMN e TIMESTAMP AS (IF(s != \"OPEN\", TIMESTAMP_ADD(u, INTERVAL 120 DAY), NULL)) STORED",
+        "ALTER INDEX i DROP STORED COLUMN c", "DROP VECTOR INDEX v", "DROP VECTOR INDEX IF EXISTS v", "DROP SEARCH INDEX IF EXISTS si", "DROP SEARCH INDEX si",
+        "ALTER SEARCH INDEX si ADD STORED COLUMN g", "ALTER SEARCH INDEX si DROP STORED COLUMN g",
+        "GRANT SELECT ON VIEW v TO ROLE r", "GRANT SELECT ON CHANGE STREAM c1, c2 TO ROLE r", "GRANT EXECUTE ON TABLE FUNCTION f TO ROLE r",
+        "GRANT ROLE a, b TO ROLE c, d", "GRANT SELECT(a, b), UPDATE(c), INSERT, DELETE ON TABLE t, u TO ROLE r, s", "REVOKE ROLE a FROM ROLE b",
+        "REVOKE SELECT ON VIEW v FROM ROLE r", "REVOKE EXECUTE ON TABLE FUNCTION f FROM ROLE r", "GRANT INSERT(a), UPDATE, DELETE ON TABLE t TO ROLE r",
+        "ALTER STATISTICS st SET OPTIONS (allow_gc = false)", "ALTER MODEL m SET OPTIONS (endpoints = ['a', 'b'], default_batch_size = 100)", "ALTER MODEL IF EXISTS m SET OPTIONS (x = 1)",
+        "DROP MODEL m", "DROP MODEL IF EXISTS m", "CREATE OR REPLACE MODEL m REMOTE OPTIONS (endpoint = 'e')",
+        "DROP PROPERTY GRAPH g", "DROP PROPERTY GRAPH IF EXISTS g",
+        "CREATE PROPERTY GRAPH g NODE TABLES (Person NO PROPERTIES)", "CREATE PROPERTY GRAPH g NODE TABLES (p PROPERTIES ARE ALL COLUMNS)",
+        "CREATE PROPERTY GRAPH g NODE TABLES (p PROPERTIES ALL COLUMNS EXCEPT (a, b))", "CREATE PROPERTY GRAPH g NODE TABLES (p AS q KEY (id) LABEL l PROPERTIES (a, b AS c) DEFAULT LABEL NO PROPERTIES)",
+        "CREATE OR REPLACE PROPERTY GRAPH g NODE TABLES (a, b) EDGE TABLES (e SOURCE KEY (s) REFERENCES a (id) DESTINATION KEY (d) REFERENCES b (id) LABEL x NO PROPERTIES)",
+        "CREATE PROPERTY GRAPH IF NOT EXISTS g NODE TABLES (p DEFAULT LABEL PROPERTIES ARE ALL COLUMNS EXCEPT (z)) EDGE TABLES (e KEY (k) SOURCE KEY (s) REFERENCES p DESTINATION KEY (d) REFERENCES p (id) NO PROPERTIES)",
+        "CREATE PROPERTY GRAPH g NODE TABLES (p LABEL a LABEL b PROPERTIES (x))",
+        "CREATE VECTOR INDEX v ON t (e) WHERE e IS NOT NULL OPTIONS (distance_type = 'COSINE')",
+        "CREATE UNIQUE NULL_FILTERED INDEX IF NOT EXISTS i ON t (a DESC, b ASC) STORING (c, d), INTERLEAVE IN p", "ALTER INDEX i ADD STORED COLUMN c",
+        "ALTER DATABASE d SET OPTIONS (optimizer_version = 2)", "CREATE ROLE r", "DROP ROLE r", "ANALYZE", "RENAME TABLE a TO b", "ALTER TABLE t RENAME TO u, ADD SYNONYM t",
+        "CREATE VIEW v SQL SECURITY INVOKER AS SELECT 1", "CREATE OR REPLACE VIEW a.v SQL SECURITY DEFINER AS SELECT * FROM t", "DROP VIEW v", "DROP INDEX IF EXISTS i", "DROP SEQUENCE s",
+    ]
+
     def dml(self):
         k = self.r.randrange(4)
         if k == 0:
             return "INSERT %s%s (a, b) VALUES (%s, %s)%s" % (self.pick(["", "INTO ", "OR IGNORE INTO ", "OR UPDATE "]), self.path(), self.expr(3), self.pick(["DEFAULT", self.expr(3)]),
-                                                         self.pick(["", ", (1, 2)", " THEN RETURN *"]))
+                                                         self.pick(["", ", (1, 2)", " THEN RETURN *", " THEN RETURN WITH ACTION AS act *", " THEN RETURN WITH ACTION a, b AS c"]))
         if k == 1:
             return "INSERT INTO %s (a) %s" % (self.path(), self.query(1))
         if k == 2:
             return "DELETE %s%s WHERE %s" % (self.pick(["", "FROM "]), self.path(), self.expr(2))
-        return "UPDATE %s SET a = %s, b.c = DEFAULT WHERE %s" % (self.path(), self.expr(3), self.expr(2))
+        return "UPDATE %s%s SET a = %s, b.c = DEFAULT WHERE %s%s" % (self.path(), self.pick(["", " AS u", " u"]), self.expr(3), self.expr(2), self.pick(["", " THEN RETURN a, b", " THEN RETURN WITH ACTION *"]))
 
     def ddl(self):
         k = self.r.randrange(8)
@@ -350,6 +461,8 @@ class G:
                               "ALTER INDEX i ADD STORED COLUMN c", "CREATE SCHEMA s", "ALTER SEQUENCE s SET OPTIONS (skip_range_min = 1)",
                               "CREATE MODEL m INPUT (a INT64) OUTPUT (b FLOAT64) REMOTE OPTIONS (endpoint = 'e')", "RENAME TABLE a TO b, c TO d"])
         if k == 6:
+            if self.r.random() < 0.7:
+                return self.pick(self.DDL_MORE)
             return "CALL %s(%s)" % (self.path(), ", ".join(self.expr(3) for _ in range(self.r.randrange(0, 3))))
         return "CREATE PROPERTY GRAPH g NODE TABLES (n KEY (id) LABEL l PROPERTIES (a, b AS c)) EDGE TABLES (e SOURCE KEY (s) REFERENCES n (id) DESTINATION KEY (d) REFERENCES n (id))"
 
@@ -384,6 +497,9 @@ def systematic_cases(valid_only=True):
                 k = ""
             t = TABLE_TAILS[(i * 3 + j) % len(TABLE_TAILS)]
             out.append(("ParseDDL" if (i + j) % 2 else "ParseStatement", ("CREATE TABLE t (a INT64%s, b STRING(MAX)%s)%s%s" % (o1, o2, k, t)).encode()))
+    for tmpl in G.DDL_MORE:
+        out.append(("ParseDDL", tmpl.encode()))
+        out.append(("ParseStatement", tmpl.lower().encode() if "'" not in tmpl and '"' not in tmpl and "`" not in tmpl else tmpl.encode()))
     for k in KEY_CLAUSES:
         for o in COLUMN_OPTS:
             if "PRIMARY KEY" in o and k and valid_only:
